@@ -425,6 +425,18 @@ class FArr:
         return self.shape[0], (self.shape[1] if len(self.shape) > 1 else 1)
 
 
+class _Undef:
+    """The value of a variable that was never defined (e.g. an intent(out) dummy the callee returned early from).  It may be
+    COPIED (the real code copies whatever bits are there); using it in arithmetic, a comparison or a condition is
+    reported as unsupported rather than guessed."""
+
+    def __repr__(self) -> str:
+        return '<undefined>'
+
+
+UNDEF = _Undef()
+
+
 class _Return(Exception):
     pass
 
@@ -443,6 +455,8 @@ def _is_arr(x) -> bool:
 
 def _ew(f, *xs):
     """Apply f element-wise over conformable operands (scalars broadcast)."""
+    if any(x is UNDEF for x in xs):
+        raise FUnsupported('an undefined value is used in an expression')
     arrs = [x for x in xs if _is_arr(x)]
     if not arrs:
         return f(*xs)
@@ -532,6 +546,8 @@ class Interp:
                 self.fr[nm] = fr[p]
 
     def truth(self, v) -> bool:
+        if v is UNDEF:
+            raise FUnsupported('an undefined value is used as a condition')
         if _is_arr(v):
             raise FUnsupported('array-valued condition')
         return bool(v)     # SBool forks here
@@ -603,7 +619,7 @@ class Interp:
                 raise FUnsupported(f'unknown name {e[1]}')
             v = self.fr[e[1]]
             if v is None:
-                raise FUnsupported(f'{e[1]} used before it is defined')
+                return UNDEF
             return v
         if k == 'array':
             return [self.ev(x) for x in e[1]]
